@@ -195,45 +195,21 @@ theorem heq_applyWrite {s s' : St} {c : Call} (hwf : AllWF s) (hi : HEq s)
     | (injection hw with hw; subst hw; exact hi)
     | (cases hw; done)
 
-theorem applyWrite_stale {s s' : St} {c : Call} (hw : applyWrite s c = some s') : s'.stale = s.stale := by
-  unfold applyWrite at hw
-  split at hw
-  all_goals first
-    | (cases hw; done)
-    | (injection hw with hw; subst hw; rfl)
-    | (split at hw <;> first
-        | (cases hw; done)
-        | (injection hw with hw; subst hw; rfl)
-        | (split at hw <;> first
-            | (cases hw; done)
-            | (injection hw with hw; subst hw; rfl)
-            | (split at hw <;> first
-              | (cases hw; done)
-              | (injection hw with hw; subst hw; rfl)
-              | (split at hw <;> first
-                | (cases hw; done)
-                | (injection hw with hw; subst hw; rfl))))
-        | (dsimp only at hw; split at hw <;> first
-            | (cases hw; done)
-            | (injection hw with hw; subst hw; rfl)))
-
-/-- The combined invariant: blocks well formed, and — as long as no "stale delete"
-decrement happened — handle records agree with block records. -/
-def Inv (s : St) : Prop := AllWF s ∧ (s.stale = 0 → HEq s)
+/-- The combined invariant: blocks well formed and handle records agree with block records. -/
+def Inv (s : St) : Prop := AllWF s ∧ HEq s
 
 theorem inv_init (r nb : Nat) : Inv (St.init r nb) :=
-  ⟨allWF_init r nb, fun _ h b _ => by simp [liveAt, hcount, St.init, credTot]⟩
+  ⟨allWF_init r nb, fun h b _ => by simp [liveAt, hcount, St.init, credTot]⟩
 
 theorem inv_step {s s' : St} {e : Ev} (hi : Inv s) (h : step s e = some s') : Inv s' := by
   refine ⟨allWF_step hi.1 h, ?_⟩
-  intro hst
   cases e with
-  | tick => simp only [step] at h; injection h with h; subst h; exact hi.2 hst
-  | «begin» t => simp only [step] at h; injection h with h; subst h; exact hi.2 hst
+  | tick => simp only [step] at h; injection h with h; subst h; exact hi.2
+  | «begin» t => simp only [step] at h; injection h with h; subst h; exact hi.2
   | endOp t a =>
     simp only [step] at h
     split at h
-    · injection h with h; subst h; exact hi.2 hst
+    · injection h with h; subst h; exact hi.2
     · cases h
   | call c =>
     simp only [step] at h
@@ -241,18 +217,13 @@ theorem inv_step {s s' : St} {e : Ev} (hi : Inv s) (h : step s e = some s') : In
     · rename_i ho
       split at h
       · split at h
-        · have hs := applyWrite_stale h
-          refine heq_applyWrite hi.1 (hi.2 (by omega)) ?_ h
+        · refine heq_applyWrite hi.1 hi.2 ?_ h
           intro hv
           rw [hv] at ho
           exact casOutcome_create_ok ho
         · cases h
-      · injection h with h; subst h; exact hi.2 hst
-    · split at h
-      · injection h with h; subst h
-        simp at hst
-      · injection h with h; subst h; exact hi.2 hst
-    · injection h with h; subst h; exact hi.2 hst
+      · injection h with h; subst h; exact hi.2
+    · injection h with h; subst h; exact hi.2
 
 theorem inv_run {s s' : St} {evs : List Ev} (hi : Inv s) (h : run s evs = some s') : Inv s' := by
   induction evs generalizing s with
